@@ -295,6 +295,11 @@ class Interp:
             return self.fresh_const(name, usort(p[1]))
         if k == "Any":
             return Opaque(name)
+        if k == "EmptyDict":
+            return {}
+        if k == "Dict":
+            return {f: self.fresh(fty, f"{name}.{f}")
+                    for f, fty in parse_type("Row(" + p[1] + ")")[1]}
         if k == "None":
             return None
         if k == "Opt":
@@ -1479,6 +1484,10 @@ class Interp:
                 res = self.fresh(con.returns, self.namer.fresh(
                     f"ret.{con.func}@{self.cur_line}"))
             self.old_env, self.result = old, res
+            saved_fin, saved_gv = self.final_env, self.ghost_vals
+            # the callee's final locals / ghosts are existentials here
+            self.final_env = _FreshFinals(self, con.func)
+            self.ghost_vals = _FreshFinals(self, con.func + ".ghost")
             saved_gf = dict(self.ghost_funcs)
             for gname, sig in con.extra.get("ghost_funcs", {}).items():
                 gf = self.fresh_ghost_func(f"{con.func}.{gname}", sig)
@@ -1487,6 +1496,7 @@ class Interp:
             for e in con.ensures:
                 self.assume(bz(self.eval_spec(e, env, keep=True)))
             self.ghost_funcs = saved_gf
+            self.final_env, self.ghost_vals = saved_fin, saved_gv
             if len(self.func_stack) == 1:
                 for anchor, callee, hexpr in self.contract.hints:
                     if anchor == "after_call" and callee == con.func:
@@ -1622,6 +1632,24 @@ class Interp:
 
 
 _EMPTY = frozenset()
+
+
+class _FreshFinals(dict):
+    """final('x') / ghost('x') of a *callee* at a call site: an unknown
+    value (existential), one per name per call."""
+
+    def __init__(self, interp, tag):
+        super().__init__()
+        self.interp, self.tag = interp, tag
+
+    def __contains__(self, k):
+        return True
+
+    def __missing__(self, k):
+        v = self.interp.fresh_const(f"{self.tag}.{k}@{self.interp.cur_line}",
+                                    z3.IntSort())
+        self[k] = v
+        return v
 
 
 class BoundMethod:
